@@ -225,6 +225,108 @@ def _decorator_keys():
     return out
 
 
+def _on_grid(e, allf, name, f, spec):
+    """z3: under 'every marked parent lies on its own grid', the strongest postcondition of the rule
+    implies (result - offset) / base is an integer. -> (status, detail, witness inputs | None)"""
+    from vt import rules
+
+    base = Fraction(repr(float(spec["base"])))
+    off = Fraction(repr(float(spec.get("to_add_after_rounding", 0))))
+    ok, why = rules.is_scalar_rule(f)
+    if not ok:
+        return "unsupported", f"not a scalar rule: {why}", None
+    try:
+        sm = symx.summarise(f, conc_args=e.conc_params_for(f), range_bound=rules.RANGE_BOUND)
+        assum = []
+        grids = []  # (parent term, integer variable, base, offset)
+        for a, (term, ty) in sm.args.items():
+            pf = allf.get(a)
+            pinfo = (getattr(pf, "__info__", None) or {}) if pf is not None else {}
+            kp = pinfo.get("params_key_for_rounding")
+            sp = e.params.get(kp, {}).get("rounding", {}).get(a) if kp else None
+            if isinstance(sp, dict) and "base" in sp and ty == "float":
+                kv = z3.Int(f"k!{a}")
+                pb, po = Fraction(repr(float(sp["base"]))), Fraction(repr(float(sp.get("to_add_after_rounding", 0))))
+                assum.append(term == symx.frac_to_z3real(pb) * z3.ToReal(kv) + symx.frac_to_z3real(po))
+                grids.append((term, kv, pb, po))
+        alts = symx.to_num(sm.result).alts
+    except (symx.Unsupported, symx.PathAbort, symx.InfiniteValue) as ex:
+        return "unsupported", f"E1: {ex!r}"[:200], None
+    # per return alternative: a constant on the grid, or equal to a rounded parent whose grid is a
+    # sub-grid of the required one (linear real arithmetic only; no integrality reasoning needed)
+    def leaves(g0, t0):
+        if not isinstance(t0, float) and z3.is_app_of(t0, z3.Z3_OP_ITE):
+            c, x, y = t0.children()
+            yield from leaves(z3.And(g0, c), x)
+            yield from leaves(z3.And(g0, z3.Not(c)), y)
+        else:
+            yield g0, t0
+
+    for g_, t, ty in [(gg, tt, ty0) for g0, t0, ty0 in alts for gg, tt in leaves(g0, t0 if isinstance(t0, float) else z3.simplify(t0))]:
+        if isinstance(t, float):
+            if solve.check([*assum, g_], 10).status == "unsat":
+                continue
+            return "refuted", f"infinite value returned on a feasible path", None
+        t = z3.ToReal(t) if z3.is_int(t) else t
+        if solve.check([*assum, g_], 10).status == "unsat":
+            continue
+        ts = z3.simplify(t)
+        if z3.is_rational_value(ts):
+            v = Fraction(ts.numerator_as_long(), ts.denominator_as_long())
+            if ((v - off) / base).denominator == 1:
+                continue
+            return "refuted", f"returns the constant {float(v)!r}, off the grid of base {spec['base']} ({spec.get('direction')})", rules.model_inputs(solve.check([*assum, g_], 10).model, sm)
+        accepted = False
+        for term, kv, pb, po in grids:
+            if (pb / base).denominator == 1 and ((po - off) / base).denominator == 1:
+                if solve.check([*assum, g_, t != term], 10).status == "unsat":
+                    accepted = True
+                    break
+        if accepted:
+            continue
+        q = (t - symx.frac_to_z3real(off)) / symx.frac_to_z3real(base)
+        res = solve.check([*assum, g_, q != z3.ToReal(z3.ToInt(q))], 20)
+        if res.status == "unsat":
+            continue
+        if res.status == "sat":
+            return "refuted", f"value off the grid of base {spec['base']} ({spec.get('direction')})", rules.model_inputs(res.model, sm)
+        return "unknown", f"return alternative {str(ts)[:80]}: {res.reason}", None
+    return "discharged", f"every feasible return alternative lies on the grid of base {spec['base']} ({len(grids)} rounded parents)", None
+
+
+def _grid_worker(job):
+    """R7 for unmarked rules whose value depends on parameters: every date class (the parameters,
+    not only the function set, decide whether the value lies on the grid)"""
+    from vt import rules
+
+    dates, names = job
+    out = {"items": {}, "n": 0}
+    seen = set()
+    for d in dates:
+        e = venv.Env(d)
+        fs = e.functions
+        fps = None
+        for n in names:
+            f = fs.get(n)
+            if f is None or "params_key_for_rounding" in (getattr(f, "__info__", None) or {}):
+                continue
+            for g, grp in e.params.items():
+                spec = grp.get("rounding", {}).get(n) if isinstance(grp, dict) and isinstance(grp.get("rounding"), dict) else None
+                if not isinstance(spec, dict) or "base" not in spec:
+                    continue
+                fps = fps or rules.group_fps(e)
+                f0 = inspect.unwrap(f)
+                k = ("law-rounds*", n, f0.__qualname__, g, json.dumps(spec, sort_keys=True, default=str), tuple(fps.get(a[:-7]) for a in inspect.signature(f0).parameters if a.endswith("_params")))
+                if k in seen:
+                    continue
+                seen.add(k)
+                out["n"] += 1
+                fno, fo = e.universe()
+                st, detail, witness = _on_grid(e, {**fno, **fo}, n, f, spec)
+                out["items"][str(k)] = {"name": f"R7:{n} ({f0.__qualname__}) is rounded by {g}.rounding but not marked: values lie on the grid anyway", "status": st, "detail": detail, "date": str(d), "witness": witness}
+    return out
+
+
 def _once_worker(dates):
     from _gettsim import interface
 
@@ -258,6 +360,29 @@ def _once_worker(dates):
                 st = "discharged" if (info.get("params_key_for_rounding") == want) else "refuted"
                 detail = "" if st == "discharged" else f"{name}: __info__ key {info.get('params_key_for_rounding')!r} vs decorator {want!r}"
             out["items"][str(k)] = {"name": f"R3a:{name}", "status": st, "detail": detail, "date": str(d)}
+        # (c) R7: every column the law rounds at this date (a `rounding:` entry in force for the name of an
+        # active rule) is produced by a rule marked for that group -- or the unmarked rule provably
+        # returns values that already lie on that grid (E1 + z3: e.g. `x_rounded if flag else 0.0`)
+        for g, grp in e.params.items():
+            if not isinstance(grp, dict) or not isinstance(grp.get("rounding"), dict):
+                continue
+            for n, spec in grp["rounding"].items():
+                f = allf.get(n)
+                if f is None or not isinstance(spec, dict) or "base" not in spec:
+                    continue
+                info = getattr(f, "__info__", None) or {}
+                if info.get("params_key_for_rounding") == g:
+                    continue
+                f0 = inspect.unwrap(f)
+                k = ("law-rounds", n, f0.__qualname__, g, json.dumps(spec, sort_keys=True, default=str))
+                if k in seen:
+                    continue
+                seen.add(k)
+                out["n"] += 1
+                st, detail, witness = _on_grid(e, allf, n, f, spec)
+                out["items"][str(k)] = {"name": f"R7:{n} ({f0.__qualname__}) is rounded by {g}.rounding but not marked: values lie on the grid anyway", "status": st, "detail": detail, "date": str(d), "witness": witness}
+                if any(a.endswith("_params") for a in inspect.signature(f0).parameters):
+                    out.setdefault("param_dependent", set()).add(n)
         # (b) the real _add_rounding_to_functions with a recording stub for the decorator factory
         rec = []
         saved = interface._add_rounding_to_one_function
@@ -277,6 +402,32 @@ def _once_worker(dates):
         if sig in seen:
             continue
         seen.add(sig)
+        def has_spec(n, f):
+            sp = e.params.get(f.__info__["params_key_for_rounding"], {}).get("rounding", {}).get(n)
+            return isinstance(sp, dict) and "base" in sp and "direction" in sp
+
+        without = sorted(n for n, f in rounded.items() if not has_spec(n, f))
+        out["n"] += 1
+        key = str(("wrap", str(d)))
+        if without:
+            # a rule with key but without spec at this date: must be an error. Whether such a rule is
+            # reachable from the default targets is C08's obligation. The wiring of all other rules
+            # is then checked on the universe without those rules.
+            try:
+                interface._add_rounding_to_one_function = stub
+                try:
+                    interface._add_rounding_to_functions(fno, e.params)
+                    err = None
+                except KeyError as ex:
+                    err = ex
+            finally:
+                interface._add_rounding_to_one_function = saved
+            out["items"][key + "/missing"] = {"name": f"R3b:rule without spec is an error@{d}", "status": "discharged" if err is not None else "refuted",
+                                              "detail": f"marked rules without a specification at this date: {without[:4]}; " + (f"KeyError raised: {str(err)[:80]}" if err is not None else "returned normally"), "date": str(d)}
+            out["n"] += 1
+            fno = {n: f for n, f in fno.items() if n not in without}
+            rounded = {n: f for n, f in rounded.items() if n not in without}
+            del rec[:]
         try:
             interface._add_rounding_to_one_function = stub
             try:
@@ -286,12 +437,8 @@ def _once_worker(dates):
                 new, err = None, ex
         finally:
             interface._add_rounding_to_one_function = saved
-        out["n"] += 1
-        key = str(("wrap", str(d)))
         if err is not None:
-            # a rule with key but without spec at this date: must be an error -- and it is. Whether
-            # such a rule is reachable from the default targets is C08's obligation.
-            out["items"][key] = {"name": f"R3b:wrapping@{d}", "status": "discharged", "detail": f"KeyError raised (rule without spec at this date): {str(err)[:120]}", "date": str(d)}
+            out["items"][key] = {"name": f"R3b:wrapping@{d}", "status": "refuted", "detail": f"KeyError although every marked rule has a specification: {str(err)[:120]}", "date": str(d)}
             continue
         bad = []
         for n, f in fno.items():
@@ -356,6 +503,69 @@ def missing_spec_obligations(rep):
     except Exception:  # noqa: BLE001
         ok = False
     rep.ob("R4: complete spec -> wrapped (non-vacuity)", "discharged" if ok else "refuted", "exhaustive-run", 0, where, "exception-post")
+
+
+def own_spec_obligations(rep):
+    """R3c: contract of the real _add_rounding_to_functions on synthetic universes: every marked rule is
+    wrapped with exactly ITS OWN (base, direction, offset or 0), whatever other rules are processed
+    before it -- all orders of three marked rules x all presence patterns of the optional offset, two
+    parameter groups, one unmarked rule; the caller's dictionaries are left unchanged."""
+    import itertools
+
+    from _gettsim import interface
+
+    where = "src/_gettsim/interface.py:596-657"
+    saved = interface._add_rounding_to_one_function
+    n = 0
+    bad = []
+    names = ["a", "b", "c"]
+    groups = {"a": "g1", "b": "g2", "c": "g1"}
+    bases = {"a": 1, "b": 0.01, "c": 100}
+    dirs = {"a": "up", "b": "nearest", "c": "down"}
+    for order in itertools.permutations([*names, "plain"]):
+        for present in itertools.product((False, True), repeat=3):
+            fs = {}
+            for nm in order:
+                def rule(x):
+                    return x
+
+                rule.__name__ = nm
+                if nm != "plain":
+                    rule.__info__ = {"params_key_for_rounding": groups[nm]}
+                fs[nm] = rule
+            params = {"g1": {"rounding": {}}, "g2": {"rounding": {}}}
+            for nm, pr in zip(names, present):
+                sp = {"base": bases[nm], "direction": dirs[nm]}
+                if pr:
+                    sp["to_add_after_rounding"] = {"a": 18, "b": 0.5, "c": 7}[nm]
+                params[groups[nm]]["rounding"][nm] = sp
+            before = copy.deepcopy(params)
+            rec = {}
+
+            def stub(base, direction, to_add_after_rounding, rec=rec):
+                def inner(func):
+                    rec[func.__name__] = (base, direction, to_add_after_rounding)
+                    return func
+
+                return inner
+
+            try:
+                interface._add_rounding_to_one_function = stub
+                interface._add_rounding_to_functions(fs, params)
+            except Exception as ex:  # noqa: BLE001
+                bad.append(f"order {order}, offsets {present}: raised {ex!r}")
+                continue
+            finally:
+                interface._add_rounding_to_one_function = saved
+            n += 1
+            want = {nm: (bases[nm], dirs[nm], before[groups[nm]]["rounding"][nm].get("to_add_after_rounding", 0)) for nm in names}
+            if rec != want:
+                bad.append(f"order {order}, offsets present {dict(zip(names, present))}: wrapped with {rec}, own specs are {want}")
+            if params != before:
+                bad.append(f"order {order}, offsets {present}: the parameter dictionary was modified: {params} != {before}")
+    rep.ob(f"R3c: every marked rule is wrapped with its own (base, direction, offset or 0) in all {n} (order, offset-presence) universes; params unchanged", "refuted" if bad else "discharged", "exhaustive-run", 0, where, "wiring", "; ".join(bad[:2]))
+    for b in bad[:2]:
+        rep.violation(f"own-spec:{b[:60]}", b, {"obligation": "R3c", "what": b}, True)
 
 
 def offset_reaches_environment(rep):
@@ -431,6 +641,7 @@ def run(tier="quick", seed=0, jobs=16):
     wrapper_obligations(rep)
     pass_through_obligations(rep)
     missing_spec_obligations(rep)
+    own_spec_obligations(rep)
     offset_reaches_environment(rep)
     dates = venv.function_set_classes() if tier == "quick" else [c[0] for c in venv.date_classes()]
     if tier == "quick":
@@ -443,10 +654,29 @@ def run(tier="quick", seed=0, jobs=16):
             raise RuntimeError(res)
         for k, v in res["items"].items():
             items.setdefault(k, v)
+    pdep = set()
+    for st, job, res in results:
+        pdep |= res.get("param_dependent", set())
+    if pdep:
+        allc = [c[0] for c in venv.date_classes()]
+        for st, job, res in par.pmap(_grid_worker, [(ch, sorted(pdep)) for ch in par.chunks(allc, jobs)], jobs):
+            if st != "ok":
+                raise RuntimeError(res)
+            for k, v in res["items"].items():
+                items.setdefault(k, v)
+    rep.extra["R7_param_dependent_unmarked_rules"] = sorted(pdep)
     nb = 0
     for k, it in sorted(items.items()):
         if it["status"] == "discharged":
             nb += 1
+            continue
+        if it["name"].startswith("R7:"):
+            rep.ob(it["name"], it["status"], "z3", 0, "parameters/*.yaml rounding sections x active rules", "grid", it["detail"])
+            if it["status"] == "refuted":
+                nm = it["name"][3:].split(" ")[0]
+                rp = {"obligation": it["name"], "date": it["date"], "rule": nm, "inputs": it.get("witness"), "replay": "unmarked_rule"}
+                bad, val = _replay_unmarked(rp)
+                rep.violation(f"R7:{nm}", f"{nm} at {it['date']}: the parameter file rounds this column, the active rule is not marked for rounding and returns {val} for {it.get('witness')}", rp, bad)
             continue
         rep.ob(it["name"], it["status"], "exhaustive-run", 0, "src/_gettsim/interface.py:596-657", "wiring", it["detail"])
         rep.violation(it["name"], it["detail"], {"obligation": it["name"], "date": it["date"], "detail": it["detail"]}, True)
@@ -456,8 +686,29 @@ def run(tier="quick", seed=0, jobs=16):
     return rep.finish({"date_classes": len(dates), "rounding_entries_in_yaml": len(yaml_rounding_specs())})
 
 
+def _replay_unmarked(rp):
+    """call the real (unwrapped) rule of that date on the witness and test the grid in CPython"""
+    e = venv.Env(datetime.date.fromisoformat(rp["date"]))
+    fno, fo = e.universe()
+    f = {**fno, **fo}[rp["rule"]]
+    g = (getattr(f, "__info__", None) or {}).get("params_key_for_rounding")
+    spec = None
+    for grp in e.params.values():
+        if isinstance(grp, dict) and isinstance(grp.get("rounding"), dict) and rp["rule"] in grp["rounding"]:
+            spec = grp["rounding"][rp["rule"]]
+    if spec is None or rp.get("inputs") is None:
+        return False, None
+    val = float(inspect.unwrap(f)(**rp["inputs"], **e.conc_params_for(f)))
+    q = (val - spec.get("to_add_after_rounding", 0)) / spec["base"]
+    return (g is None and abs(q - round(q)) > 1e-6), val
+
+
 def replay(path):
     rp = json.loads(open(path).read())
+    if rp.get("replay") == "unmarked_rule":
+        bad, val = _replay_unmarked(rp)
+        print(json.dumps({"violates": bool(bad), "value": val}))
+        return 1 if bad else 0
     if {"x", "base", "direction", "offset"} <= set(rp):
         got = _run_real_wrapper(rp["base"], rp["direction"], rp["offset"], rp["x"])
         exp = float(_spec_round(Fraction(repr(rp["x"])), rp["base"], rp["direction"], rp["offset"]))
